@@ -41,7 +41,7 @@ class Effects:
                 if p in self.f.bodies:
                     out.add(p)
         for d in t["f"].get("tdefs", []) or []:
-            if d and "{closure" in d and d in self.f.bodies:
+            if d and d in self.f.bodies:
                 out.add(d)
         return out
 
@@ -134,32 +134,26 @@ def r2(ctx):
         if b.path.startswith("store::fs::migrations::") or b.path.startswith("store::fs::migrate_redb_v2_tuples::"):
             ctx.ok("C06.R2", b.path, "write.%s.%s" % (name, op), "migration transaction", t["sp"])
             continue
-        ok = False
-        cur = b
-        for _ in range(4):
-            site = mir.closure_site(f, cur)
-            if not site:
-                break
-            pb, pbi, psi, ps = site
-            cl_local = ps["p"]["l"]
-            for qbi, qt in pb.calls():
-                if callee_matches(qt, r"store::fs::Store::modify") and any(a[0] in ("copy", "move") and a[1]["l"] == cl_local for a in qt["a"]):
-                    ok = True
-            if ok:
-                break
-            cur = pb
-        ctx.check(ok, "C06.R2", b.path, "write-inside-modify.%s.%s" % (name, op), "table write happens in a closure passed to Store::modify (the shared write transaction)", t["sp"])
+        ok = tables.inside_modify(f, b.path)
+        ctx.check(ok, "C06.R2", b.path, "write-inside-modify.%s.%s" % (name, op), "table write happens only inside the closure passed to Store::modify (the shared write transaction), directly or in a helper called only from there", t["sp"])
     if n < 15:
         raise mir.AnchorMissing("expected >=15 table write sites, found %d" % n)
     allowed = {"store::fs::Store::flush", "store::fs::Store::snapshot", "store::fs::Store::tables", "store::fs::Store::modify",
                "store::fs::Store::new_impl", "store::fs::migrations::run_migration", "store::fs::tables::TransactionAndTables::commit",
                "store::fs::migrate_redb_v2_tuples::run"}
+    def only_from(path, depth=3):
+        if path in allowed:
+            return True
+        if depth <= 0:
+            return False
+        callers = {cb.path for cb, _, _ in f.callers().get(path, [])}
+        return bool(callers) and all(only_from(c, depth - 1) for c in callers)
     nc = 0
     for b in f.bodies.values():
         for bi, t in b.calls():
             if t["f"].get("name") == "commit" and callee_matches(t, r"(TransactionAndTables|WriteTransaction)::commit"):
                 nc += 1
-                ctx.check(b.path in allowed, "C06.R2", b.path, "commit-caller", "commit is called only by the transaction managers", t["sp"])
+                ctx.check(only_from(b.path), "C06.R2", b.path, "commit-caller", "commit is called only by the transaction managers (or a private helper that only they call)", t["sp"])
     if nc < 6:
         raise mir.AnchorMissing("expected >=6 commit call sites, found %d" % nc)
     # durability is never lowered: a non-durable commit makes flush() acknowledge data that a crash loses.
@@ -211,13 +205,17 @@ def r3(ctx):
         b = f.body("store::fs::Store::" + name)
         ctx.touch(b)
         from .common import comparisons
-        cm = [c for c in comparisons(b) if not mir.is_noise(c["x"])]
         ok = False
-        for c in cm:
-            sa = {origin_summary(o) for o in trace(b, c["a"], through_calls=False)}
-            sb = {origin_summary(o) for o in trace(b, c["b"], through_calls=False)}
-            if any("elapsed" in x for x in sa) and any("MAX_COMMIT_DELAY" in x for x in sb) and c["op"] in (">", ">="):
-                ok = True
+        for hb in f.local_callees(b.path, depth=2, prefix="store::fs::Store::"):
+            for c in comparisons(hb):
+                if mir.is_noise(c["x"]):
+                    continue
+                sa = {origin_summary(o) for o in trace(hb, c["a"], through_calls=False)}
+                sb = {origin_summary(o) for o in trace(hb, c["b"], through_calls=False)}
+                if any("elapsed" in x for x in sa) and any("MAX_COMMIT_DELAY" in x for x in sb) and c["op"] in (">", ">="):
+                    ok = True
+                if any("elapsed" in x for x in sb) and any("MAX_COMMIT_DELAY" in x for x in sa) and c["op"] in ("<", "<="):
+                    ok = True
         ctx.check(ok, "C06.R3", b.path, "age-check", "commits the open transaction when since.elapsed() > MAX_COMMIT_DELAY", b.sp)
     ctx.floor("C06.R3", 6)
 
